@@ -1,5 +1,5 @@
 """C10 - lexical scoping and structured control flow."""
-from . import docex, machine
+from . import docex, machine, scopetrace
 
 replay_one = machine.replay_one
 
@@ -19,3 +19,5 @@ def run(chk):
     # whole programs of the repository, parsed by the real parser and run by the same machine
     cases += docex.corpus(chk, chk.tier)
     machine.replay_family(chk, cases)
+    # direction B: scope and variable events of these programs and of repository programs against ScopeStack.tla
+    scopetrace.run(chk, cases)
